@@ -11,6 +11,11 @@ import writerlib as wl
 LEVEL = "proof"
 
 
+def regenerate(res):
+    import attrlib
+    attrlib.regenerate_pyfront(res)
+
+
 def tree_hash(d):
     h = hashlib.sha256()
     for root, dirs, files in sorted(os.walk(d)):
